@@ -98,6 +98,7 @@ fn msg_flags_new_refuses_wide_version() {
     let version: u8 = kani::any();
     kani::assume(version > 15);
     let _ = MsgFlags::new(MessageFlagType::Data, false, false, false, false, version);
+    kani::cover!(true, "vf-returned"); // must be unreachable: `should_panic` alone is existential (kani_run.py checks this)
 }
 
 // ---- AVP header flags, all 256 octets -----------------------------------------------------------------
@@ -412,6 +413,7 @@ fn vec_writer_write_bytes_at_refuses_outside() {
     let mut w = VecWriter::new();
     w.write_bytes(&init[..n]);
     w.write_bytes_at(&patch[..m], off);
+    kani::cover!(true, "vf-returned"); // must be unreachable: `should_panic` alone is existential (kani_run.py checks this)
 }
 
 // ---- Accm::try_read (closure capturing &mut reader) ----------------------------------------------------------
